@@ -243,6 +243,12 @@ func c18Step(i int, st c18Stage, in c18Str, first bool) (out c18Str, throws, ear
 	case "peachforever":
 		// every callback writes until the reader is gone; the next stage ignores its input
 		ok = !first && nin >= 1 && nin <= 8
+	case "peachmixed":
+		// one callback fails for real (after the others have started), the others
+		// write until the reader is gone: the stage's exception is a combination
+		// of a genuine failure and reader-gone errors and must be reported
+		throws = true
+		ok = !first && nin >= 2 && nin <= 8
 	case "eachfail":
 		throws = nin > 0
 		ok = !first
@@ -276,7 +282,7 @@ func c18Step(i int, st c18Stage, in c18Str, first bool) (out c18Str, throws, ear
 }
 
 func c18Unbounded(kind string) bool {
-	return kind == "foreverv" || kind == "foreverb" || kind == "peachforever"
+	return kind == "foreverv" || kind == "foreverb" || kind == "peachforever" || kind == "peachmixed"
 }
 
 func c18FullReader(kind string) bool {
@@ -301,7 +307,7 @@ func c18Model(c c18Case) (c18Info, error) {
 			bad := c18FullReader(st.Kind) ||
 				(prev == "foreverv" && (st.Kind == "readline" || (st.Kind == "readk" && st.KB > 0))) ||
 				(prev == "foreverb" && (st.Kind == "readk" || st.Kind == "throw") && st.K > 0) ||
-				(prev == "peachforever" && st.Kind != "nop" && st.Kind != "fail" && st.Kind != "emit" && st.Kind != "put")
+				((prev == "peachforever" || prev == "peachmixed") && st.Kind != "nop" && st.Kind != "fail" && st.Kind != "emit" && st.Kind != "put")
 			if bad {
 				return info, fmt.Errorf("stage %d: reader that would wait for ever behind an unbounded producer", i)
 			}
@@ -409,6 +415,8 @@ func c18Code(c c18Case) string {
 			s = "peach {|x| c18-y " + id + "; put $x'+" + id + "' }"
 		case "peachforever":
 			s = "peach {|x| while $true { put $x } }"
+		case "peachmixed":
+			s = "peach {|x| if (c18-once " + id + ") { sleep 0.03; fail boom" + id + " } else { while $true { put $x } } }"
 		case "eachfail":
 			s = "each {|x| c18-y " + id + "; fail boom" + id + " }"
 		case "nop":
@@ -448,8 +456,9 @@ func c18Yield(code int) {
 }
 
 type c18Run struct {
-	c   c18Case
-	cnt []atomic.Int64
+	c    c18Case
+	cnt  []atomic.Int64
+	once []atomic.Bool
 }
 
 func (r *c18Run) y(i int) {
@@ -542,6 +551,8 @@ func (r *c18Run) boom(i int) error {
 func (r *c18Run) fns() map[string]any {
 	return map[string]any{
 		"c18-y": func(i int) { r.y(i) },
+		// true for exactly one caller per stage
+		"c18-once": func(i int) bool { return i >= 0 && i < len(r.once) && r.once[i].CompareAndSwap(false, true) },
 		"c18-emit": func(fm *eval.Frame, i int) error {
 			st := r.c.Stages[i]
 			vo, bo := fm.ValueOutput(), fm.ByteOutput()
@@ -755,7 +766,7 @@ func c18Check(c c18Case) error {
 	if c.Procs >= 1 {
 		defer runtime.GOMAXPROCS(runtime.GOMAXPROCS(c.Procs))
 	}
-	run := &c18Run{c: c, cnt: make([]atomic.Int64, len(c.Stages))}
+	run := &c18Run{c: c, cnt: make([]atomic.Int64, len(c.Stages)), once: make([]atomic.Bool, len(c.Stages))}
 	ev := elv.New()
 	elv.AddGoFns(ev, run.fns())
 	code := c18Code(c)
@@ -816,7 +827,7 @@ func c18Check(c c18Case) error {
 			for i, e := range pe.Errors {
 				ok := e == nil || e.Reason() == nil
 				if info.throws[i] {
-					if ok || msgOf(e) != "boom"+strconv.Itoa(i) {
+					if ok || !c18BoomOK(msgOf(e), i, c.Stages[i].Kind) {
 						return fmt.Errorf("stage %d throws boom%d but the pipeline error has %v there%s", i, i, e, hist())
 					}
 				} else if !ok {
@@ -824,7 +835,7 @@ func c18Check(c c18Case) error {
 				}
 			}
 		} else {
-			if len(want) != 1 || msgOf(res.Err) != "boom"+strconv.Itoa(want[0]) {
+			if len(want) != 1 || !c18BoomOK(msgOf(res.Err), want[0], c.Stages[want[0]].Kind) {
 				return fmt.Errorf("pipeline reported %q, expected exactly the exceptions of stages %v%s", msgOf(res.Err), want, hist())
 			}
 		}
@@ -851,6 +862,17 @@ func c18Check(c c18Case) error {
 	return nil
 }
 
+// c18BoomOK: the reported exception of throwing stage i. A peachmixed stage
+// reports its genuine failure combined with the reader-gone errors of its
+// other callbacks; the genuine failure must be in there.
+func c18BoomOK(msg string, i int, kind string) bool {
+	want := "boom" + strconv.Itoa(i)
+	if kind == "peachmixed" {
+		return strings.Contains(msg, want)
+	}
+	return msg == want
+}
+
 func c18Clip2(s string, n int) string {
 	if len(s) > n {
 		return s[:n] + "…"
@@ -861,7 +883,7 @@ func c18Clip2(s string, n int) string {
 // ---- generator --------------------------------------------------------------------
 
 var c18Producers = []string{"emit", "emit", "emit", "range", "put", "natloop", "foreverv", "foreverb"}
-var c18Filters = []string{"relay", "relay", "eachput", "eachecho", "eachboth", "all", "onlyv", "onlyb", "tolines", "take", "count", "peach", "peachforever", "eachfail"}
+var c18Filters = []string{"relay", "relay", "eachput", "eachecho", "eachboth", "all", "onlyv", "onlyb", "tolines", "take", "count", "peach", "peachforever", "peachmixed", "eachfail"}
 var c18Early = []string{"nop", "readk", "readk", "readk", "readline", "fail", "throw", "emit", "put"}
 
 func c18GenStage(t *rapid.T, kind string) c18Stage {
@@ -911,7 +933,7 @@ func c18Gen(t *rapid.T) c18Case {
 		switch {
 		case i == 0:
 			pool = c18Producers
-		case prevForever && c.Stages[i-1].Kind == "peachforever":
+		case prevForever && (c.Stages[i-1].Kind == "peachforever" || c.Stages[i-1].Kind == "peachmixed"):
 			pool = []string{"nop", "fail", "emit", "put"}
 		case prevForever:
 			pool = c18Early
